@@ -124,6 +124,20 @@ def sharing_shapes():
                      ("local", [("bind", "o1", ("bin", "+", ("obj", [F("p", N(1))]), V("m"))), ("bind", "o2", ("bin", "+", V("m"), ("obj", [F("q", N(2))]))),
                                 ("bind", "o3", V("m"))],
                       ("arr", [IDX(V(o), f) for o, f in rs] + [IDX(V("o3"), "a"), IDX(V("o1"), "c"), IDX(V("o3"), "b")])))))
+    # the same literal as a layer of many objects: between two reads of fields of the first object, the fields of K other
+    # objects built from the literal are read (a bounded or evicting cache of per-object bindings shows up here)
+    for K in (9, 70, 150, 300):
+        objs = ("arrcomp", ("bin", "+", ("obj", [F("p", V("i"))]), V("m")), [("for", "i", ("arr", [N(i) for i in range(K)]))])
+        first = ("index", V("os"), N(0))
+        out.append(("shared-literal-many-objects-%d-1" % K,
+                    ("local", [("bind", "m", mixin())],
+                     ("local", [("bind", "os", objs)],
+                      ("arr", [IDX(first, "a"), ("arrcomp", IDX(V("o"), "a"), [("for", "o", V("os"))]), IDX(first, "b"),
+                               ("arrcomp", IDX(V("o"), "c"), [("for", "o", V("os"))]), IDX(first, "c")])))))
+        out.append(("shared-literal-many-objects-function-%d-1" % K,
+                    ("local", [("bindfn", "mk", [("i", None)], ("objext", ("obj", [F("p", V("i"))]), mixin()))],
+                     ("local", [("bind", "os", ("arrcomp", ("apply", V("mk"), [V("i")], [], False), [("for", "i", ("arr", [N(i) for i in range(K)]))]))],
+                      ("arr", [IDX(first, "a"), ("arrcomp", IDX(V("o"), "b"), [("for", "o", V("os"))]), IDX(first, "b"), IDX(first, "c")])))))
     # unneeded positions, every bomb kind
     for i, b in enumerate(BOMBS):
         out.append(("unused-local-%d" % i, ("local", [("bind", "u", b)], N(1))))
